@@ -37,6 +37,8 @@ PROPS = {
                         "outside the tolerance bands only (an alarm is always one concrete point with exactly evaluated winding numbers)",
                         "'entirely inside' is read as: every vertex in the closed rectangle (this is the library's own shortcut); a zero-area polygon lying in the rectangle boundary counts as inside, not outside",
                         "'an edge lies along a side' is read as: on the side's supporting line and sharing a positive length with the side; for such self-intersecting inputs only the outside clause and the exact clauses are judged (counted as skipped_parity_clause_selfx_edge_along_side)",
+                        "an entirely-outside input all four rectangle corners of which lie on its edges and for which the rectangle itself is returned is reported ONCE, under tag "
+                        "outside_all_corners_on_path_returns_rect; its winding / orientation symptoms are not reported separately (known_findings/C08_C09.md, F-C08-A)",
                         "zero-area result paths of simple inputs are counted (result_zero_area_paths), not alarmed: the statement only forbids changed orientation",
                         "the PathsD overloads are not exercised here (C16); empty / inverted rectangles and paths of fewer than 3 points belong to C10",
                         "a library call that burns more than 60 s of CPU time is reported as violation crash_signal_26 for the running case"],
